@@ -12,7 +12,7 @@ A unit file is C text with `#!` header lines and `//@` directives that pull text
   //@ struct <relpath> <name> [as <cname>]
   //@ enum <relpath> <name> [as <cname>] [nth <k>] [prefix <P>]
   //@ init <relpath> <name>  [then optional `rule:` lines and `//@ endinit`]   (needs endinit only if rules given)
-  //@ func <relpath> <Qualified::name> [match "<text>"] [nth <k>]
+  //@ func <relpath> <Qualified::name> [match "<text>"] [nth <k>]      (`//@ func? ...`: skipped when the function does not exist)
       sig: <C signature>
       class: <Class> <header relpath>       (R1: members/methods read from the class declaration)
       obj: v=IMS ...      ptrobj: v=IMS ...      overload: name/arity=cname ...
@@ -340,7 +340,10 @@ def _expand(u, text, depth=0, mutate=None):
                     i += 1
                 i += 1
             out.append(txt)
-        elif d.startswith('func '):
+        elif d.startswith('func ') or d.startswith('func? '):
+            optional = d.startswith('func? ')     # helper that may not exist in this tree: skipped when absent
+            if optional:
+                d = 'func ' + d[6:]
             acc = []
             while lines[i].strip() != '//@ endfunc':
                 acc.append(lines[i])
@@ -348,7 +351,12 @@ def _expand(u, text, depth=0, mutate=None):
                 if i >= len(lines):
                     raise cxx.ExtractError('missing //@ endfunc')
             i += 1
-            out.append(_process_func(u, d[5:], acc, mutate))
+            try:
+                out.append(_process_func(u, d[5:], acc, mutate))
+            except cxx.ExtractError as ex:
+                if not (optional and 'not found' in str(ex)):
+                    raise
+                out.append('/* optional function absent in this tree: %s */' % d[5:])
         else:
             raise cxx.ExtractError('unknown directive: ' + d)
     return '\n'.join(out)
